@@ -39,7 +39,7 @@ RULE = ("real projects of 0-12 jobs over textually colliding universes (1/10/100
         "tar.bz2, tar.xz} x path in {None, False, format strings incl. {{auto}} / {{auto:sep}} / {job.sp.k} / "
         "{job.id}, tabulated callables chosen to collide} x schema in {None, schema string derived from the "
         "layout, tabulated callable (exact / one wrong / type-confused / partial)} x optional pre-existing jobs "
-        "in the importing project x empty sub-directories in ~10% of the jobs x a few paths that leave the target or "
+        "in the importing project (then also user copy functions failing with EXDEV / EIO / ENOSPC) x empty sub-directories in ~10% of the jobs x a few paths that leave the target or "
         "are not in normal form ('../y', absolute, 'c//d', 'b/.', ''); plus direct cases for the schema-string parser and normpath/join; distinct = "
         "distinct (state points, target, path, schema, pre) ; non-trivial = at least one job")
 MODELLED = ["zipfile / tarfile / shutil.copytree / os.walk byte level behaviour (only the member list and the "
